@@ -474,3 +474,73 @@ Proof.
     apply HL. apply in_or_app. right. auto.
   - apply (IH b); auto. cbn in H. apply H.
 Qed.
+
+(* ---- contextual lookups (GSUB5): grouped rules ---- *)
+Lemma flat_rules_groups : forall {B} cov (rules : list (list B)), flat_rules (combine cov rules) = groups cov rules.
+Proof. reflexivity. Qed.
+
+Lemma vals_of_groups : forall {B} cov (repl : list (list B)),
+  ascending cov -> length cov = length repl ->
+  map (fun g => vals_of g (groups cov repl)) cov = repl.
+Proof.
+  intros B. induction cov as [|g cov IH]; intros repl Ha Hl; destruct repl as [|r repl]; try discriminate; auto.
+  cbn [length] in Hl. cbn [map]. rewrite groups_cons.
+  pose proof (ascending_lt_all _ _ Ha) as HL.
+  assert (F1 : forall (x : N) (rr : list B), filter (fun p : N * B => fst p =? x) (map (fun lg => (x, lg)) rr) = map (fun lg => (x, lg)) rr).
+  { intros x rr. induction rr; cbn; auto. rewrite N.eqb_refl. f_equal; auto. }
+  assert (F2 : forall (x y : N) (rr : list B), x <> y -> filter (fun p : N * B => fst p =? x) (map (fun lg => (y, lg)) rr) = []).
+  { intros x y rr Hxy. induction rr; cbn; auto. assert (E : (y =? x) = false) by lia. rewrite E. auto. }
+  f_equal.
+  - unfold vals_of. rewrite filter_app, F1.
+    assert (E : filter (fun p : N * B => fst p =? g) (groups cov repl) = []).
+    { pose proof (groups_keys_ge cov repl g HL) as HG. clear - HG.
+      induction (groups cov repl) as [|p l IHl]; cbn; auto. inversion HG; subst.
+      assert (E : (fst p =? g) = false) by lia. rewrite E. auto. }
+    rewrite E, app_nil_r, map_map. cbn [snd]. apply map_id.
+  - assert (Hl' : length cov = length repl) by lia.
+    transitivity (map (fun g0 => vals_of g0 (groups cov repl)) cov);
+      [|apply (IH repl (ascending_tail _ _ Ha) Hl')].
+    apply map_ext_in. intros x Hx. unfold vals_of. rewrite filter_app.
+    rewrite F2; auto. rewrite Forall_forall in HL. specialize (HL x Hx). lia.
+Qed.
+
+(* rules indexed by class: index_from i rules, flattened and regrouped *)
+Lemma flat_index_keys_ge : forall {B} (rules : list (list B)) i,
+  Forall (fun p => i <= fst p) (flat_rules (index_from i rules)).
+Proof.
+  intros B rules. induction rules as [|rs r IH]; intros i; [constructor|].
+  cbn [index_from]. unfold flat_rules in *. cbn [map concat fst snd]. apply Forall_app. split.
+  - apply Forall_forall. intros p Hp. apply in_map_iff in Hp. destruct Hp as (x & E & _). subst. cbn. lia.
+  - eapply Forall_impl; [|apply (IH (i + 1))]. intros p Hp. cbn in Hp. lia.
+Qed.
+
+Lemma vals_of_index : forall {B} (rules : list (list B)) i,
+  map (fun c => vals_of (i + N.of_nat c) (flat_rules (index_from i rules))) (seq 0 (length rules)) = rules.
+Proof.
+  intros B rules. induction rules as [|rs r IH]; intros i; [reflexivity|].
+  cbn [length seq map index_from]. unfold flat_rules in *. cbn [map concat fst snd].
+  assert (F1 : forall (x : N) (rr : list B), filter (fun p : N * B => fst p =? x) (map (fun lg => (x, lg)) rr) = map (fun lg => (x, lg)) rr).
+  { intros x rr. induction rr; cbn; auto. rewrite N.eqb_refl. f_equal; auto. }
+  assert (F2 : forall (x y : N) (rr : list B), x <> y -> filter (fun p : N * B => fst p =? x) (map (fun lg => (y, lg)) rr) = []).
+  { intros x y rr Hxy. induction rr; cbn; auto. assert (E : (y =? x) = false) by lia. rewrite E. auto. }
+  f_equal.
+  - unfold vals_of. rewrite N.add_0_r. rewrite filter_app, F1.
+    assert (E : filter (fun p : N * B => fst p =? i) (concat (map (fun p => map (fun x => (fst p, x)) (snd p)) (index_from (i + 1) r))) = []).
+    { pose proof (flat_index_keys_ge r (i + 1)) as HG. unfold flat_rules in HG.
+      induction (concat _) as [|p l IHl]; cbn; auto. inversion HG; subst.
+      assert (E : (fst p =? i) = false) by lia. rewrite E. auto. }
+    rewrite E, app_nil_r, map_map. cbn [snd]. apply map_id.
+  - rewrite <- seq_shift, map_map.
+    transitivity (map (fun c => vals_of (i + 1 + N.of_nat c)
+                     (concat (map (fun p => map (fun x => (fst p, x)) (snd p)) (index_from (i + 1) r)))) (seq 0 (length r)));
+      [|apply (IH (i + 1))].
+    apply map_ext. intros c. unfold vals_of. rewrite filter_app. rewrite F2 by lia. cbn [app].
+    replace (i + N.of_nat (S c)) with (i + 1 + N.of_nat c) by lia. reflexivity.
+Qed.
+
+(* class names "c<i>" *)
+Lemma digits_inj : forall a b, digits a = digits b -> a = b.
+Proof.
+  intros a b H. pose proof (atoi_digits_digits a) as Ha. rewrite H in Ha.
+  rewrite atoi_digits_digits in Ha. congruence.
+Qed.
